@@ -91,4 +91,6 @@ fn main() {
 
     // Other cfgs (rustc-check-cfg)
     println!("cargo:rustc-check-cfg=cfg(ffuzzy_tests_without_debug_assertions)");
+    // Verification hooks (off by default; enabled by `--cfg a4lg_ffuzzy_verif`)
+    println!("cargo:rustc-check-cfg=cfg(a4lg_ffuzzy_verif)");
 }
